@@ -174,6 +174,29 @@ class World(object):
             log.append(("sysexit", [], {}))
             raise SystemExit("exit-text")
 
+        def cyclic():
+            # a result that no serialiser can convert: a list containing itself
+            log.append(("cyclic", [], {}))
+            v = [1]
+            v.append(v)
+            return v
+
+        def deepret():
+            # a result nested far deeper than any serialiser's recursion limit
+            log.append(("deepret", [], {}))
+            v = []
+            for _ in range(100000):
+                v = [v]
+            return v
+
+        def badkeys():
+            # a result the class translator accepts and the JSON serialiser refuses (a dict with a tuple key)
+            log.append(("badkeys", [], {}))
+            return {(1, 2): 3}
+
+        reg("badkeys", badkeys)
+        reg("cyclic", cyclic)
+        reg("deepret", deepret)
         reg("sysexit", sysexit)
         reg("retfault", retfault)
         reg("f", f)
@@ -325,6 +348,8 @@ def expect_entry(world, e):
     if isinstance(val, BadSer):
         return (answer(Exp(rid, "error", [-32603], form=form, contains=["RuntimeError", "cannot serialise"], why="result conversion failed")),
                 probe, notif, False)
+    if name in ("cyclic", "deepret", "badkeys"):
+        return answer(Exp(rid, "error", [-32603], form=form, why="result cannot be converted (cyclic / too deep)")), probe, notif, False
     return answer(Exp(rid, "result", value=val, form=form)), probe, notif, False
 
 
